@@ -7,6 +7,9 @@ pub fn dispatch(name: &str, args: &[String]) -> u8 {
     match name {
         "c11-align" => c11_align(args),
         "c11-overflow" => c11_overflow(args),
+        "c13-find" => c13_find(args),
+        "c07-lex" => c07_lex(args),
+        "c13-replace" => c13_replace(args),
         _ => {
             eprintln!("unknown case {name}");
             2
@@ -53,4 +56,106 @@ fn c11_overflow(_args: &[String]) -> u8 {
             1
         }
     }
+}
+
+fn unhex(s: &str) -> Vec<u8> {
+    (0..s.len() / 2).map(|i| u8::from_str_radix(&s[2 * i..2 * i + 2], 16).unwrap()).collect()
+}
+
+/// C13: `find` against std's `str::find` (bytes given as hex; must be valid UTF-8).
+/// Exit 1 on a different answer; a panic or a hang (driver timeout) is a failure as well.
+fn c13_find(args: &[String]) -> u8 {
+    let (h, n) = (unhex(&args[0]), unhex(&args[1]));
+    let (Ok(h), Ok(n)) = (std::str::from_utf8(&h), std::str::from_utf8(&n)) else {
+        println!("not UTF-8: skipped");
+        return 0;
+    };
+    let got = naijascript::builtins::find(h, n);
+    let want = h.find(n);
+    println!("find({h:?}, {n:?}) = {got:?}, std = {want:?}");
+    u8::from(got != want)
+}
+
+/// C13: `replace` against std's `str::replace`.
+fn c13_replace(args: &[String]) -> u8 {
+    let (h, f, t) = (unhex(&args[0]), unhex(&args[1]), unhex(&args[2]));
+    let (Ok(h), Ok(f), Ok(t)) = (std::str::from_utf8(&h), std::str::from_utf8(&f), std::str::from_utf8(&t)) else {
+        println!("not UTF-8: skipped");
+        return 0;
+    };
+    let arena = Arena::new(1024 * 1024).unwrap();
+    let got = naijascript::builtins::replace(&arena, h, f, t);
+    let want = h.replace(f, t);
+    println!("replace({h:?}, {f:?}, {t:?}) = {:?}, std = {want:?}", got.as_str());
+    u8::from(got.as_str() != want)
+}
+
+/// C07: lex a text (hex) with the real Lexer, check every token and diagnostic span, render the
+/// diagnostics.  Exit 1 on a span outside the text / unordered / inside a character; panics and
+/// aborts propagate.
+fn c07_lex(args: &[String]) -> u8 {
+    use naijascript::syntax::scanner::Lexer;
+    let bytes = unhex(&args[0]);
+    let Ok(src) = std::str::from_utf8(&bytes) else {
+        println!("not UTF-8: skipped");
+        return 0;
+    };
+    let arena = Arena::new(4 * 1024 * 1024).unwrap();
+    let mut lexer = Lexer::new(src, &arena);
+    let mut bad = false;
+    let mut n = 0;
+    let ok = |s: usize, e: usize| s <= e && e <= src.len() && src.is_char_boundary(s) && src.is_char_boundary(e);
+    while let Some(tok) = lexer.next() {
+        n += 1;
+        if !ok(tok.span.start, tok.span.end) {
+            println!("BAD token span {}..{} (len {})", tok.span.start, tok.span.end, src.len());
+            bad = true;
+        }
+        if n > 10 * src.len() + 10 {
+            println!("lexer does not terminate");
+            return 1;
+        }
+    }
+    for d in lexer.errors.diagnostics.iter() {
+        if !ok(d.span.start, d.span.end) {
+            println!("BAD diagnostic span {}..{} (len {}) `{}`", d.span.start, d.span.end, src.len(), d.message);
+            bad = true;
+        }
+        for l in d.labels.iter() {
+            if !ok(l.span.start, l.span.end) {
+                println!("BAD label span {}..{} (len {}) `{}`", l.span.start, l.span.end, src.len(), d.message);
+                bad = true;
+            }
+        }
+    }
+    // the renderer must cope with whatever was emitted
+    let rendered = lexer.errors.render_ansi(src, "<replay>");
+    println!("lexed {n} tokens, {} diagnostics, rendered {} bytes", lexer.errors.diagnostics.len(), rendered.len());
+    // the rest of the front end on the same text: parser, then (if it parsed) the static checker
+    {
+        use naijascript::resolver::Resolver;
+        use naijascript::syntax::parser::Parser;
+        let lexer = Lexer::new(src, &arena);
+        let mut parser = Parser::new(lexer, &arena);
+        let (root, perr) = parser.parse_program();
+        for d in perr.diagnostics.iter() {
+            if !ok(d.span.start, d.span.end) || d.labels.iter().any(|l| !ok(l.span.start, l.span.end)) {
+                println!("BAD parser diagnostic span {}..{} (len {}) `{}`", d.span.start, d.span.end, src.len(), d.message);
+                bad = true;
+            }
+        }
+        let _ = perr.render_ansi(src, "<replay>");
+        if !perr.has_errors() {
+            let mut resolver = Resolver::new(&arena);
+            resolver.resolve(root);
+            for d in resolver.errors.diagnostics.iter() {
+                if !ok(d.span.start, d.span.end) || d.labels.iter().any(|l| !ok(l.span.start, l.span.end)) {
+                    println!("BAD resolver diagnostic span {}..{} `{}`", d.span.start, d.span.end, d.message);
+                    bad = true;
+                }
+            }
+            let _ = resolver.errors.render_ansi(src, "<replay>");
+        }
+    }
+    u8::from(bad)
 }
